@@ -374,13 +374,23 @@ fn into_asn<C: Context<Primary = Type>>(ty: &syn::Type, mut asn: AsnAttribute<C>
         r#type: if let Type::TypeReference(_, empty_tag) = asn.primary {
             Type::TypeReference(quote! { #ty }.to_string(), empty_tag.or(asn.tag))
         } else {
-            if let Type::Integer(int) = asn.primary.no_optional_mut() {
-                asn.consts
+            match asn.primary.no_optional_mut() {
+                Type::Integer(int) => asn
+                    .consts
                     .into_iter()
                     .map(|c| match c {
                         ConstLit::I64(name, value) => (name, value),
                     })
-                    .for_each(|v| int.constants.push(v));
+                    .for_each(|v| int.constants.push(v)),
+                // the named bits of a BIT STRING are carried by the same const(..) attribute
+                Type::BitString(bits) => asn
+                    .consts
+                    .into_iter()
+                    .map(|c| match c {
+                        ConstLit::I64(name, value) => (name, value as u64),
+                    })
+                    .for_each(|v| bits.constants.push(v)),
+                _ => {}
             }
             asn.primary
         },
